@@ -699,30 +699,47 @@ def r7(ctx):
     P = ctx.project
     H = P.method(f"{CONTRASTS}.HelmertContrasts", "_get_coding_matrix")
     ctx.look(6)
-    stores = {}
+    from ..util import atom_mapper, reach_condition, truth_table
+    is_rev = lambda c: norm(c).replace("not ", "").strip("()") == "self.reverse"
+
+    def by_direction(st, expr):
+        """{'reverse': e1, 'forward': e2} — the value of ``expr`` (part of statement ``st``) per direction, whether the
+        direction is tested around the statement (inside or outside the loop) or by a conditional expression within it."""
+        if isinstance(expr, ast.IfExp) and is_rev(expr.test):
+            pos = not (isinstance(expr.test, ast.UnaryOp) and isinstance(expr.test.op, ast.Not))
+            return {"reverse": expr.body if pos else expr.orelse, "forward": expr.orelse if pos else expr.body}
+        rc = reach_condition(P, st, keep=is_rev, through_loops=True)
+        tt = truth_table(rc, atom_mapper({"self.reverse": 0}), 1) if rc is not None else None
+        return {{(False, True): "reverse", (True, False): "forward"}.get(tt): expr}
+
+    lf_key = lambda x: linform(x) and tuple(sorted(linform(x).items()))
+    stores, fills, scal = {}, {}, {}
+    dup = False
     for st in ast.walk(H.node):
-        if isinstance(st, ast.Assign) and isinstance(st.targets[0], ast.Subscript) and norm(st.targets[0].value) == "contr" and isinstance(st.targets[0].slice, ast.Tuple):
-            idx = tuple(linform(x) and tuple(sorted(linform(x).items())) for x in st.targets[0].slice.elts)
-            from ..util import atom_mapper, reach_condition, truth_table
-            rc = reach_condition(P, st, keep=lambda c: norm(c).replace("not ", "") == "self.reverse")
-            tt = truth_table(rc, atom_mapper({"self.reverse": 0}), 1) if rc is not None else None
-            branch = {(False, True): "reverse", (True, False): "forward"}.get(tt)
-            stores[branch] = (idx, linform(st.value))
+        if isinstance(st, ast.Assign) and isinstance(st.targets[0], ast.Subscript) and norm(st.targets[0].value) == "contr":
+            sl = st.targets[0].slice
+            if isinstance(sl, ast.Tuple):
+                for d, v in by_direction(st, st.value).items():
+                    dup = dup or d in stores
+                    stores[d] = (tuple(lf_key(x) for x in sl.elts), linform(v))
+            else:
+                for d, ix in by_direction(st, sl).items():
+                    dup = dup or d in fills
+                    fills[d] = (norm(ix), norm(st.value))
+        if isinstance(st, ast.AugAssign) and isinstance(st.op, ast.Div):
+            for d, v in by_direction(st, st.value).items():
+                dup = dup or d in scal
+                scal[d] = (norm(st.target), linform(v))
     want = {"reverse": ((tuple(sorted(_lf("i + 1").items())), tuple(sorted(_lf("i").items()))), _lf("i + 1")),
             "forward": ((tuple(sorted(_lf("i").items())), tuple(sorted(_lf("i").items()))), _lf("n - i - 1"))}
-    ctx.check(stores == want, "C11.R7", "Helmert: reverse puts i+1 at (i+1, i); forward puts n−i−1 at (i, i)", H.where, ctx.construct(H, text="helmert entries"),
+    ctx.check(stores == want and not dup, "C11.R7", "Helmert: reverse puts i+1 at (i+1, i); forward puts n−i−1 at (i, i)", H.where, ctx.construct(H, text="helmert entries"),
               f"diagonal entries are {stores}; expected {want}")
-    fill = [st for st in ast.walk(H.node) if isinstance(st, ast.Assign) and isinstance(st.targets[0], ast.Subscript) and norm(st.targets[0].value) == "contr"
-            and isinstance(st.targets[0].slice, ast.IfExp)]
-    ok = len(fill) == 1 and norm(fill[0].targets[0].slice) == "numpy.triu_indices(n - 1) if self.reverse else numpy.tril_indices(n, k=-1)" and norm(fill[0].value) == "-1"
+    ok = fills == {"reverse": ("numpy.triu_indices(n - 1)", "-1"), "forward": ("numpy.tril_indices(n, k=-1)", "-1")} and not dup
     ctx.check(ok, "C11.R7", "Helmert: −1 above the diagonal block (reverse) / below the diagonal (forward)", H.where, ctx.construct(H, text="helmert fill"),
-              f"fill statement is `{norm(fill[0]) if fill else None}`")
-    div = [st for st in ast.walk(H.node) if isinstance(st, ast.AugAssign) and isinstance(st.op, ast.Div)]
-    okd = False
-    if len(div) == 1 and isinstance(div[0].value, ast.IfExp) and norm(div[0].value.test) == "self.reverse" and norm(div[0].target) == "contr[:, i]":
-        okd = linform(div[0].value.body) == _lf("i + 2") and linform(div[0].value.orelse) == _lf("n - i")
+              f"fill statements are `{fills}`")
+    okd = scal == {"reverse": ("contr[:, i]", _lf("i + 2")), "forward": ("contr[:, i]", _lf("n - i"))} and not dup
     ctx.check(okd, "C11.R7", "Helmert scaling: column i is divided by i+2 (reverse) / n−i (forward)", H.where, ctx.construct(H, text="helmert scaling"),
-              f"scaling statement is `{norm(div[0]) if div else None}`: the forward scaled coding would no longer be 'level minus mean of later levels'")
+              f"scaling is `{scal}`: the forward scaled coding would no longer be 'level minus mean of later levels'")
     D = P.method(f"{CONTRASTS}.DiffContrasts", "_get_coding_matrix")
     t = norm(D.node)
     ok = "contr = numpy.repeat([numpy.arange(1, n)], n, axis=0) / n" in t and "contr[numpy.triu_indices(n, m=n - 1)] -= 1" in t and "if not self.backward: contr *= -1" in t.replace("\n", " ")
